@@ -45,7 +45,9 @@ Fixpoint indices (qs : list nat) (gq : list nat) : option (list nat) :=
    the physical sites handed to the MPS gate (in the gate's qubit order).
        phys_sites = [self.qubits.index(q) for q in qubits]
        if len(phys_sites) == 2:
-           i, j = sorted(phys_sites); q = self.qubits.pop(j); self.qubits.insert(i + 1, q)   *)
+           i, j = sorted(phys_sites); new_qubits = list(self.qubits); q = new_qubits.pop(j); new_qubits.insert(i + 1, q)
+       super()._apply_gate(...); self.qubits = new_qubits      (committed only once the gate has been applied:
+       a rejected gate leaves the tracker unchanged = the model's None)   *)
 Definition perm_step (qs : list nat) (gq : list nat) : option (list nat * list nat) :=
   match indices qs gq with
   | None => None
